@@ -86,6 +86,18 @@ HAND_WBXML = [
 ]
 
 
+# XML documents with CDATA sections and text that needs escaping / stripping (the corpus has a single CDATA document)
+HAND_XML = [
+    b'<?xml version="1.0"?><!DOCTYPE wml PUBLIC "-//WAPFORUM//DTD WML 1.1//EN" "http://www.wapforum.org/DTD/wml_1.1.xml">'
+    b'<wml><card id="a"><p>  x &lt; y &amp; z  <![CDATA[ raw < & > ]]> tail &quot;q&quot; </p><p><![CDATA[second]]></p></card></wml>',
+    b'<?xml version="1.0"?><!DOCTYPE SyncML PUBLIC "-//SYNCML//DTD SyncML 1.1//EN" "http://www.syncml.org/docs/syncml_represent_v11_20020213.dtd">'
+    b'<SyncML><SyncHdr><VerDTD>1.1</VerDTD><SessionID>  1 &amp; 2  </SessionID></SyncHdr><SyncBody><Add><CmdID>1</CmdID><Item>'
+    b'<Data><![CDATA[BEGIN:VCARD\r\nN:a<b>&c\r\nEND:VCARD]]></Data></Item></Add><Final/></SyncBody></SyncML>',
+    b'<?xml version="1.0"?><!DOCTYPE si PUBLIC "-//WAPFORUM//DTD SI 1.0//EN" "http://www.wapforum.org/DTD/si.dtd">'
+    b'<si><indication href="http://a/?x=1&amp;y=2">  you &lt;have&gt; \'mail\' &amp; more  </indication></si>',
+]
+
+
 def corpus_xml(limit):
     xs = sorted(glob.glob(os.path.join(common.REPO, "test", "tools", "**", "*.xml"), recursive=True))
     out = []
@@ -137,6 +149,9 @@ def build_docs(ctx, harness):
         for d in sorted(by_dir):
             xmls += sorted(by_dir[d], key=lambda pb: len(pb[1]))[:8]
     x_ids = [docs.add("x", b, p) for p, b in xmls]
+    x_hand = [docs.add("x", b, "hand-made xml %d" % k) for k, b in enumerate(HAND_XML)]
+    x_cdata = x_hand[:2] + [i for i in x_ids if b"<![CDATA[" in docs.items[i][1]]
+    x_ids = x_ids + x_hand
     docs.write()
     lines = ["mk %d" % i for i in x_ids] + ["mk %d S" % i for i in x_ids]
     ans, crashes = common.run_lines(harness, lines, env=docs.env())
@@ -183,7 +198,8 @@ def build_docs(ctx, harness):
     x_bad.append(docs.add("x", b"this is not xml", "not xml"))
     x_bad.append(docs.add("x", b"<a><b></a>", "ill-formed"))
     docs.write()
-    return docs, {"x": x_ids, "w": w_ok, "wn": w_nost, "cut": w_cut, "flip": w_bad, "hand": hand, "xbad": x_bad, "nocs": w_nocs}, crashes
+    return docs, {"x": x_ids, "w": w_ok, "wn": w_nost, "cut": w_cut, "flip": w_bad, "hand": hand, "xbad": x_bad, "nocs": w_nocs,
+                  "xcdata": x_cdata, "xhand": x_hand}, crashes
 
 
 # ----------------------------------------------------------------------------------------------
@@ -241,7 +257,7 @@ def gen_histories(ctx, g, n):
                 src = rng.choice(g["x"]) if rng.chance(1, 2) else rng.choice(g["w"] + g["wn"])
                 op = ("x" if rng.chance(1, 2) else "w") + str(src)
                 if rng.chance(1, 4):
-                    op += "!%d" % rng.below(40)
+                    op += ("!c%d" % rng.below(3)) if rng.chance(1, 4) else ("!%d" % rng.below(40))
                 ops.append(op)
         out.append(kind + " " + " ".join(ops))
     return out
@@ -292,6 +308,19 @@ def systematic_histories(docs, g):
             out.append("P d%d d%d" % (a, b))
             out.append("W d%d d%d" % (a, b))
         out.append("P d%d d%d " % (a, a) + " ".join("d%d" % b for b in reps[:10]))
+    # encoder: a run that FAILS where in_cdata / in_content / indent are dirty (a PI node under a CDATA node, under the
+    # k-th element), reset, then text-bearing trees; every XML generation type, with and without blank stripping
+    texty = g.get("xhand", []) + [i for i in g["x"][:: max(1, len(g["x"]) // 8)]]
+    for gen in (0, 1, 2):
+        for strip in (0, 1):
+            pre = "E g%d n2 b%d i%d" % (gen, strip, strip)
+            for c in g.get("xcdata", []):
+                for k in (0, 1):
+                    out.append("%s x%d!c%d " % (pre, c, k) + " ".join("x%d" % t for t in texty))
+                    out.append("%s w%d!c%d " % (pre, c, k) + " ".join("x%d w%d" % (t, t) for t in texty[:4]))
+            for c in texty[:5]:
+                for k in (1, 3, 6):
+                    out.append("%s x%d!%d " % (pre, c, k) + " ".join("x%d" % t for t in texty))
     return out
 
 
@@ -416,7 +445,10 @@ def tie(ctx, harness, driver, docs, g, fixed_world):
                     ops.append(rng.choice(["s%d" % rng.below(2), "g%d" % rng.below(3), "l%d" % rng.choice(LANGS), "c%d" % rng.choice([0, 3, 106]),
                                            "n%d" % rng.below(4), "v%d" % rng.below(4)]))
                 src = rng.choice(g["x"]) if rng.chance(1, 2) else rng.choice(g["w"])
-                ops.append(("x" if rng.chance(1, 2) else "w") + str(src) + ("!%d" % rng.below(30) if rng.chance(1, 3) else ""))
+                if g.get("xcdata") and rng.chance(1, 5):
+                    ops.append(("x" if rng.chance(2, 3) else "w") + str(rng.choice(g["xcdata"])) + "!c%d" % rng.below(2))
+                else:
+                    ops.append(("x" if rng.chance(1, 2) else "w") + str(src) + ("!%d" % rng.below(30) if rng.chance(1, 3) else ""))
             lines.append("ed " + " ".join(ops))
     ans, crashes = common.run_lines(harness, lines, env=docs.env())
     q, where = [], []           # driver questions, and (line index, what, expected C value)
